@@ -227,11 +227,13 @@ def edit_state(rng, domain, state, atoms):
             if not before["fl"]:
                 return None
             f, a, _, _ = rng.choice(before["fl"])
-            v = rng.choice([[0, 1], [1, 1], [-1, 1], [1, 2], [5, 2], [7, 1], [-3, 4]])
+            # the last ones are below 1e-4 (their shortest text has an exponent and more than 6 decimals)
+            v = rng.choice([[0, 1], [1, 1], [-1, 1], [1, 2], [5, 2], [7, 1], [-3, 4], [1, 80000], [67, 5000000], [-1, 80000]])
+            x = v[0] / v[1]
             for fl in state.state_fluents.values():
                 if fl.name == f and list(fl.signature.keys()) == list(a):
-                    fl.set_value(v[0] / v[1])
-            ev.update({"how": "set", "f": f, "a": list(a), "v": v})
+                    fl.set_value(x)
+            ev.update({"how": "set", "f": f, "a": list(a), "v": snap_or_approx(x), "x": repr(float(x))})
         ev["out"] = {"st": project_state(state)}
     except Exception as e:  # noqa: BLE001
         ev["out"] = {"exc": exc_name(e)}
